@@ -38,8 +38,15 @@ impl PredictionModelRecord {
                 match cache.get(&key)? {
                     Some(er) => EnergyRate::new(er),
                     None => {
-                        let (energy_rate, _energy_rate_unit) =
-                            self.prediction_model.predict(speed, grade)?;
+                        // the entry answers every (speed, grade) that rounds to this key, for
+                        // this and all later queries: predict at the rounded key itself so the
+                        // stored rate does not depend on which query filled the entry first
+                        let rounded = cache.rounded_key(&key);
+                        let rounded_speed = rounded.first().map_or(speed.0, |v| Speed::new(*v));
+                        let rounded_grade = rounded.get(1).map_or(grade.0, |v| Grade::new(*v));
+                        let (energy_rate, _energy_rate_unit) = self
+                            .prediction_model
+                            .predict((rounded_speed, speed.1), (rounded_grade, grade.1))?;
                         cache.update(&key, energy_rate.as_f64())?;
                         energy_rate
                     }
